@@ -57,7 +57,7 @@ fn main() {
                 }
                 let sc: Value = serde_json::from_str(&line).expect("scenario json");
                 let mode = sc["env"]["mode"].as_str().unwrap_or("plain");
-                if !["plain", "damage", "plant", "gate", "conc"].contains(&mode) && !shim::available() {
+                if (!["plain", "damage", "plant", "gate", "conc"].contains(&mode) || sc["env"]["crash"].is_string()) && !shim::available() {
                     eprintln!("casharn: mode {mode} needs LD_PRELOAD=libfsshim.so");
                     std::process::exit(2);
                 }
